@@ -148,6 +148,28 @@ def precision_param(f):
     return None
 
 
+def integer_counter_target(prog, f, st):
+    """the statement accumulates into self.<attr> and every allocation of that attribute in the class hierarchy has a literal
+    integer dtype (a counter, not a moment)"""
+    t = st.target if isinstance(st, ast.AugAssign) else (st.targets[0] if isinstance(st, ast.Assign) and len(st.targets) == 1 else None)
+    if not (isinstance(t, ast.Attribute) and isinstance(t.value, ast.Name) and t.value.id == 'self') or f.cls is None:
+        return False
+    allocs = []
+    for ci in prog.mro(f.cls):
+        for m in ci.methods.values():
+            for n in ast.walk(m.node):
+                if isinstance(n, ast.Assign) and any(isinstance(x, ast.Attribute) and norm(x) == f'self.{t.attr}' for x in n.targets):
+                    allocs.append(n.value)
+    if not allocs:
+        return False
+    for v in allocs:
+        dt = next((k.value for k in v.keywords if k.arg == 'dtype'), None) if isinstance(v, ast.Call) else None
+        txt = norm(dt).strip('\'"').split('.')[-1] if dt is not None else ''
+        if not (txt.startswith('uint') or txt.startswith('int')):
+            return False
+    return True
+
+
 def precision_taint(prog, f, prec=None):
     """Values read from read-only array parameters keep their storage dtype until cast to the precision parameter;
     a product / power / matmul / sum whose non-constant operands are all uncast is computed in the narrow dtype."""
@@ -158,6 +180,7 @@ def precision_taint(prog, f, prec=None):
     written = set(kernels.written_params(f))
     sources = {p for p in f.params if p not in written and p != prec and p != 'self'}
     clean_arrays = set()      # locals allocated with dtype=prec
+    rebound_at = {}           # parameter name -> first line from which it denotes its cast copy
     tainted = set()
     stmts = astutil.stmts_of(f.node)
     counters = {n.target.id for n in ast.walk(f.node) if isinstance(n, ast.For) and isinstance(n.target, ast.Name)}
@@ -179,6 +202,8 @@ def precision_taint(prog, f, prec=None):
                 return True
             if e.id in sources:
                 return True
+            if e.id in rebound_at and getattr(e, 'lineno', 10 ** 9) < rebound_at[e.id]:
+                return True           # read before the parameter name is rebound to its cast copy
             return False
         if isinstance(e, ast.Attribute):
             if e.attr in ('shape', 'dtype', 'ndim', 'size'):
@@ -231,7 +256,8 @@ def precision_taint(prog, f, prec=None):
                 elif taint(v) is True and n not in clean_arrays:
                     tainted.add(n)
                 elif taint(v) is False and n in sources:
-                    sources.discard(n)          # the parameter name is rebound to a cast value
+                    sources.discard(n)          # the parameter name is rebound to a cast value (from that statement on)
+                    rebound_at[n] = min(rebound_at.get(n, 10 ** 9), getattr(st, 'end_lineno', st.lineno) + 1)
     for st in stmts:
         for n in ast.walk(st) if not isinstance(st, (ast.For, ast.While, ast.If, ast.With, ast.Try)) else \
                 ast.walk(getattr(st, 'test', None) or getattr(st, 'iter', None) or ast.Pass()):
@@ -243,6 +269,9 @@ def precision_taint(prog, f, prec=None):
                                                f'{type(n.op).__name__} is computed in the input dtype, not in `{prec}`'))
                 elif vals:
                     out.append(F('ok', f, st, f'`{norm(n)[:60]}`: an operand is cast to `{prec}`'))
+            elif isinstance(n, ast.Call) and isinstance(n.func, ast.Attribute) and n.func.attr in ('sum', 'nansum') and integer_counter_target(prog, f, st) \
+                    and (taint(n.func.value) is True or (norm(n.func.value).split('.')[0] in ('_np', 'np', 'numpy') and n.args and taint(n.args[0]) is True)):
+                out.append(F('ok', f, st, f'`{norm(n)[:60]}`: a count kept in an integer accumulator (numpy sums integers in at least 64 bits: exact)'))
             elif isinstance(n, ast.Call) and isinstance(n.func, ast.Attribute) and n.func.attr in ('sum', 'dot', 'mean') \
                     and norm(n.func.value).split('.')[0] not in ('_np', 'np', 'numpy') and taint(n.func.value) is True:
                 out.append(F('bad', f, st, f'`{norm(n)[:60]}`: reduction over raw input values runs in the input dtype, not in `{prec}`'))
